@@ -349,6 +349,15 @@ def coreStep (st : CoreSt) (j : Json) : Except String (CoreSt × String) := do
   -- C06: no placeholder outlives its application
   let fails := fails ++ (terminatedHolding.filterMap (fun a =>
       (a.items.find? (fun i => i.bound && i.ph)).map (fun i => s!"C06.placeholder-outlives-application {a.id} {i.key}")))
+  -- … seen from the nodes: a placeholder on a node belongs to a live application that still lists it as bound
+  let fails := fails ++ (post.nodes.map (fun n => n.allocs.filterMap (fun na =>
+      if !na.ph || na.foreign then none else
+      match post.findApp na.app with
+      | none => some s!"C06.placeholder-outlives-application {na.app} {na.key}@{n.id}"
+      | some ap =>
+        if !ap.live then none   -- reported from the application's side above
+        else if ap.items.any (fun i => i.key == na.key && i.bound) then none
+        else some s!"C06.placeholder-left-on-node {na.app} {na.key}@{n.id}"))).flatten
   -- Known class (KNOWN_FINDINGS C03.I7r / C04): the RM releases a real ask whose placeholder replacement is in flight.
   -- removeAllocation does not find it among the allocations and only drops the ask: the real half already placed on
   -- another node stays there, and the confirmation of the swap later announces the released ask as a new allocation.
